@@ -403,9 +403,18 @@ def mutate(owner, fname, old, new, count=1, accessor='fget'):
     else:
         newobj = newf
     setattr(owner, fname, newobj)
+    # `from module import function` bindings elsewhere in circuits must see the variant as well
+    rebound = []
+    if not isinstance(owner, type):
+        for m in list(sys.modules.values()):
+            if m is not owner and getattr(m, '__name__', '').startswith('circuits') and m.__dict__.get(fname) is orig:
+                setattr(m, fname, newobj)
+                rebound.append(m)
 
     def undo():
         setattr(owner, fname, orig)
+        for m in rebound:
+            setattr(m, fname, orig)
     return undo
 
 
